@@ -198,6 +198,15 @@ func children(r *rand.Rand, o RouteOpt, depth int) []*model.RouteSpec {
 				n2 := Pick(r, LabelNames)
 				c.MatchRE = map[string]string{n2: Pick(r, Regexes[n2])}
 			}
+			if r.Intn(2) == 0 {
+				// several entries in one legacy map: their order in the file (and in Go's map) is arbitrary,
+				// the route's identity must not depend on it
+				for _, nx := range LabelNames {
+					if _, ok := c.Match[nx]; !ok && len(c.Match) < 3 && r.Intn(2) == 0 {
+						c.Match[nx] = Pick(r, Values[nx])
+					}
+				}
+			}
 			if o.MixedMatchers && r.Intn(3) == 0 {
 				c.Matchers = Matchers(r, 4) // one or two legacy matchers plus 1-4 new-style ones on the same node
 			}
